@@ -305,6 +305,13 @@ def h_complex(ctx, what, D, P):
         ctx.eq(Y[:, :, 3], z2, 'as_utpm mixed: second complex entry')
         for p in range(P):
             ctx.eq(Y[0, p, 2], zc, 'as_utpm mixed: complex number, direction %d' % p)
+    elif what == 'FtoJT, JTtoF':
+        W = _cvars(ctx, 'w', (D + 1, P, 2))
+        x = cu(W)
+        back = plain(x.FtoJT().JTtoF().data)
+        ctx.fact(back.shape == (D + 1, P, 2), 'JTtoF(FtoJT(x)) shape %s' % (back.shape,))
+        if back.shape == (D + 1, P, 2):
+            ctx.eq(back[:-1], W[1:], 'JTtoF(FtoJT(x)) keeps the coefficients 1.. of a complex polynomial')
     elif what == 'combine_blocks':
         b = [[_cvars(ctx, 'b00', (D, P, 1, 1)), _cvars(ctx, 'b01', (D, P, 1, 2))],
              [_cvars(ctx, 'b10', (D, P, 1, 1)), _cvars(ctx, 'b11', (D, P, 1, 2))]]
@@ -334,6 +341,18 @@ def h_misc_containers(ctx, D, P):
                     ctx.eq(Z[:, :, i, j], els[i][j], 'ndarray2utpm[%d][%d]' % (i, j))
     except Exception as e:
         ctx.fact(False, 'ndarray2utpm(nested list) raised %s: %s' % (type(e).__name__, str(e)[:80]))
+    # an object ARRAY (not a list) whose entries are vector-valued polynomials
+    vec = [_vars(ctx, 'ov%d' % i, (D, P, 3)) for i in range(2)]
+    oa = np.empty(2, dtype=object)
+    oa[0], oa[1] = mk_utpm(ctx, algopy, vec[0]), mk_utpm(ctx, algopy, vec[1])
+    try:
+        Zo = plain(utils.ndarray2utpm(oa).data)
+        ctx.fact(Zo.shape == (D, P, 2, 3), 'ndarray2utpm(object array of vector polynomials) shape %s' % (Zo.shape,))
+        if Zo.shape == (D, P, 2, 3):
+            for i in range(2):
+                ctx.eq(Zo[:, :, i], vec[i], 'ndarray2utpm(object array)[%d]' % i)
+    except Exception as e:
+        ctx.fact(False, 'ndarray2utpm(object array of vector polynomials) raised %s: %s' % (type(e).__name__, str(e)[:80]))
     # containers mixing polynomials and plain numbers: a number is the constant polynomial
     u0, u1 = _vars(ctx, 'mu0', (D, P)), _vars(ctx, 'mu1', (D, P))
     c0, c1 = ctx.var('mc0'), ctx.var('mc1')
@@ -550,7 +569,7 @@ def units(tier, seed):
             add('symvec/utpm/n%d,%s' % (n, uplo), 'h_symvec', n=n, uplo=uplo, kind='utpm', D=2, P=2)
     add('containers/D2,P2', 'h_containers', D=2, P=2)
     add('containers/nested lists, blocks of different degree/D3,P2', 'h_misc_containers', D=3, P=2)
-    for what in ('vecsym', 'base_and_dirs', 'as_utpm', 'as_utpm, real entries first', 'combine_blocks'):
+    for what in ('vecsym', 'base_and_dirs', 'as_utpm', 'as_utpm, real entries first', 'FtoJT, JTtoF', 'combine_blocks'):
         add('complex polynomials/%s/D2,P2' % what, 'h_complex', what=what, D=2, P=2)
     add('containers/combine_blocks with a P=1 block/D2,P3', 'h_combine_mixed', D=2, P=3)
     add('dirs/integer-typed directions, non-integer base point/D3,P2', 'h_dirs_intV', D=3, P=2)
